@@ -26,7 +26,8 @@ RULE = ("Rendered feature documents (rules, outlines with several examples block
         "Checked on should_skip after parse_features and by running. Non-trivial = document with >= 3 entities of >= 2 kinds.")
 ASSUMPTIONS = [
     "lines before the Feature line (tags/comments above it) are not compared: no entity starts above them",
-    "non-consecutive repetitions of the same file in one location list are outside the claim",
+    "a file that is named again later in a location list (not next to its first mention) is loaded again: each group of "
+    "consecutive locations selects its own union (observed behaviour; together the groups run the union)",
     "name patterns are simple regular expressions without back-references or inline flags",
 ]
 SIMPLIFY = {"o": lambda v: "pass" if not v.startswith("<") else None, "bg": "nullable", "noise": "nullable"}
@@ -273,12 +274,17 @@ def check_list(res, case):
                 fi = fi % nfeat
                 for ln in lines:
                     entries.append((fi, None if ln is None else 1 + (ln % nl[fi])))
-            # make groups consecutive by file (outside the claim otherwise)
-            order = []
-            for fi, _ in entries:
-                if fi not in order:
-                    order.append(fi)
-            entries = [(fi, ln) for f2 in order for fi, ln in entries if fi == f2]
+            # consecutive locations of one file form a group (one Feature object per group); a file that is named
+            # again later in the list forms another group: together the groups select the union
+            groups = []     # [(file index, [line or None ...])]
+            for fi, ln in entries:
+                if groups and groups[-1][0] == fi:
+                    groups[-1][1].append(ln)
+                else:
+                    groups.append((fi, [ln]))
+            order = [fi for fi, _lns in groups]
+            if len(set(order)) < len(order):
+                res.label("list:file-named-again-later")
             listdir = case.get("listdir") or ""
             via = case.get("via", "list")
             if via == "list":
@@ -320,19 +326,16 @@ def check_list(res, case):
             if len(features) != len(order):
                 res.fail("C10.list.features", "%d features for %d files" % (len(features), len(order)))
                 return
-            for fobj, fi in zip(features, order):
+            for fobj, (fi, lns) in zip(features, groups):
                 table, all_names = tables[fi]
-                wants = []
-                for f2, ln in entries:
-                    if f2 == fi:
-                        wants.append(select(table, all_names, ln))
+                wants = [select(table, all_names, ln) for ln in lns]
                 if any(w is None for w in wants):
                     continue
                 want = set().union(*wants)
                 check_selection(res, "C10.list.selection", fobj, prog["features"][fi], proj.facts[fi], want,
-                                "file #%d entries %s" % (fi, [e for e in entries if e[0] == fi]))
+                                "file #%d group %s of the list %s" % (fi, lns, entries))
             res.nontrivial = len(order) >= 2 or len(entries) >= 2
-            res.label("files:%d" % len(order))
+            res.label("files:%d" % len(set(order)))
     finally:
         proj.close()
 
@@ -493,7 +496,7 @@ def required_labels(tier):
     return ["entity:feature", "entity:rule", "entity:outline", "entity:row", "entity:scenario", "setup/teardown",
             "noise", "all-pairs(doc<=12)", "run-sample", "via-listfile:subdir", "via-listfile:cwd", "via-args",
             "listfile:indented-entry", "files:2", "locparse", "name", "name:row-selected", "scenario-names-not-unique",
-            "via-args:glob-characters-in-file-name", "run-sample:auto-retry"]
+            "via-args:glob-characters-in-file-name", "run-sample:auto-retry", "list:file-named-again-later"]
 
 
 def _f12(case, detail, info):
